@@ -5,7 +5,7 @@
    TIME_to_longlong_*_packed for the opaque temporal payloads), when a
    document is storable as described (wf_doc), and the text a consumer must
    receive (render, render_top).  Nothing here mentions the model. *)
-From GB Require Import Base.Prelude Base.DecText Spec.Values.
+From GB Require Import Base.Prelude Base.DecText Spec.ColTypes.
 From Coq Require Import String.
 Open Scope Z_scope.
 
@@ -160,7 +160,7 @@ Fixpoint wf_docb (d : jdoc) : bool :=
     in_range 0 10000 y && in_range 0 13 m && in_range 0 32 d &&
     in_range 0 24 h && in_range 0 60 mi && in_range 0 60 s && in_range 0 1000000 us
   | JDecimal p s neg ip fp =>
-    wf_type (TNewDecimal p s) && wf_value (TNewDecimal p s) false (VDecimal neg ip fp)
+    wf_type (TNewDecimal p s) && wf_decimalb p s neg ip fp
   end.
 Definition wf_doc (d : jdoc) : Prop := wf_docb d = true.
 
